@@ -1,17 +1,7 @@
 // Command vcheck is the orchestrator and the worker of every property check.
+// Drivers are registered by the reg_*.go files in this directory.
 package main
 
-import (
-	"verif/harness/core"
-	"verif/harness/props/c01"
-)
+import "verif/harness/core"
 
-func main() {
-	ds := map[string]core.Driver{}
-	for _, d := range []core.Driver{
-		c01.Driver{},
-	} {
-		ds[d.ID()] = d
-	}
-	core.Main(ds)
-}
+func main() { core.MainRegistered() }
